@@ -247,9 +247,11 @@ def run_case(case: dict, ctx: Ctx) -> None:
     interior = np.setdiff1d(used, bnd)
 
     if case["kind"] == "thermal":
+        # the size of the field is part of the workload: a unit system in which every prescribed value is tiny (or huge) is legitimate
+        amp = float(10.0 ** rng.choice([0, 0, 3, -4, -9, -12]))
         g = np.zeros(3)
-        g[:dim] = rng.uniform(-2, 2, dim)
-        c0 = float(rng.uniform(-3, 3))
+        g[:dim] = rng.uniform(-2, 2, dim) * amp
+        c0 = float(rng.uniform(-3, 3)) * amp
         t_lin = X @ g + c0
         k = float(rng.uniform(0.5, 20))
         with ctx.monitored("no-exception", key + "/raised"):
@@ -264,7 +266,7 @@ def run_case(case: dict, ctx: Ctx) -> None:
         r = (K @ t_lin)[free]
         scale = abs(K).max() * np.abs(t_lin).max()
         ctx.describe(f"thermal/{dim}D/{et}/{mc}", len(interior) > 0 and np.linalg.norm(g) > 0,
-                     kind="thermal", et=et, mesh=mc, Ne=mesh.Ne, Nn=Nn, n_interior=int(len(interior)), g=g[:dim], k=k, **info)
+                     kind="thermal", et=et, mesh=mc, Ne=mesh.Ne, Nn=Nn, n_interior=int(len(interior)), g=g[:dim], k=k, amplitude=amp, **info)
         if len(free):
             ctx.check("residual", np.abs(r).max() / scale, TOL_RES)
         ctx.check("solution", relerr(sol[used], t_lin[used]), TOL_SOL, n_interior=len(interior))
@@ -276,9 +278,10 @@ def run_case(case: dict, ctx: Ctx) -> None:
     with ctx.monitored("no-exception", key + "/raised"):
         law, ldesc = gmat.make_law(rng, dim, case["law"], planeStress=case["ps"], thickness=thickness)
     G = np.zeros((3, 3))
-    G[:dim, :dim] = rng.uniform(-1, 1, (dim, dim)) * 1e-2 * rng.choice([1.0, 10.0])
+    amp = float(10.0 ** rng.choice([0, 0, 2, -4, -8, -11]))
+    G[:dim, :dim] = rng.uniform(-1, 1, (dim, dim)) * 1e-2 * rng.choice([1.0, 10.0]) * amp
     c0 = np.zeros(3)
-    c0[:dim] = rng.uniform(-1, 1, dim) * 1e-2
+    c0[:dim] = rng.uniform(-1, 1, dim) * 1e-2 * amp
     U = X @ G.T + c0  # (Nn, 3)
     u_lin = U[:, :dim].ravel()
     names = ["x", "y", "z"][:dim]
@@ -298,7 +301,7 @@ def run_case(case: dict, ctx: Ctx) -> None:
     free = np.setdiff1d(dofs_used, dofs_bnd)
     ctx.describe(f"elastic/{dim}D/{et}/{case['law']}/ps={case['ps']}/{mc}", len(interior) > 0 and np.abs(G).max() > 0,
                  kind="elastic", et=et, mesh=mc, law=ldesc.get("kind"), planeStress=case["ps"], Ne=mesh.Ne, Nn=Nn,
-                 n_interior=int(len(interior)), G=G[:dim, :dim], measure=measure, thickness=thickness, **info)
+                 n_interior=int(len(interior)), G=G[:dim, :dim], measure=measure, thickness=thickness, amplitude=amp, **info)
     if len(free):
         r = (K @ u_lin)[free]
         ctx.check("residual", np.abs(r).max() / (abs(K).max() * np.abs(u_lin).max()), TOL_RES)
